@@ -71,7 +71,7 @@ Print Assumptions C15_cbwire_same.
 (* cbor: every integer leaf, no guard at the norm level (beyond it: SignedInteger with an unsigned value
    >= 2^63 is a decode error, excluded by Wcbor_dec_enc_partial's lib_supports) *)
 Theorem C15_nums_cbor : forall (O : Cbor.eopts) (D : Cbor.dopts) (i : item) (z : Z),
-  int_val i = Some z -> (match i with IUint _ => True | _ => True end) ->
+  int_val i = Some z ->
   int_val (CborEnc.norm O D i) = Some z
   /\ (match CborEnc.norm O D i with
       | IInt x => (x < 0)%Z \/ Cbor.do_signed D = true
@@ -80,25 +80,13 @@ Theorem C15_nums_cbor : forall (O : Cbor.eopts) (D : Cbor.dopts) (i : item) (z :
 Proof. exact nums_cbor. Qed.
 Print Assumptions C15_nums_cbor.
 
-(* msgpack, simple, binc: under the guard [fits] (SignedInteger off, or the value below 2^63) *)
+(* msgpack, simple, binc at the norm level: under [fits] (SignedInteger off, or the value below 2^63);
+   outside [fits] see C15_nums_total_* below *)
 Theorem C15_nums_msgpack : forall (O : Msgpack.eopts) (D : Msgpack.dopts) (i : item) (z : Z),
   int_val i = Some z -> wf i -> fits (Msgpack.d_signedinteger D) i ->
   int_val (MsgpackRT.norm O D i) = Some z.
 Proof. exact nums_msgpack. Qed.
 Print Assumptions C15_nums_msgpack.
-
-(* the full statement, without the guard, is false of the faithful model AND of the decoder model run on
-   the encoder's bytes: msgpack + SignedInteger returns uint64 2^64-1 as int64 -1 (known finding F07-1n) *)
-Definition C15_nums_msgpack_full_statement : Prop :=
-  forall (O : Msgpack.eopts) (D : Msgpack.dopts) (i : item) (z : Z),
-  int_val i = Some z -> wf i -> int_val (MsgpackRT.norm O D i) = Some z.
-
-Theorem C15_nums_msgpack_signed_refuted :
-  exists (O : Msgpack.eopts) (D : Msgpack.dopts) (i : item) (z : Z),
-    int_val i = Some z /\ wf i /\ int_val (MsgpackRT.norm O D i) <> Some z
-    /\ Msgpack.dec_naked D (Msgpack.dec_fuel (Msgpack.enc O i)) (Msgpack.enc O i) = Ok (IInt (-1), []).
-Proof. exact nums_msgpack_signed_refuted. Qed.
-Print Assumptions C15_nums_msgpack_signed_refuted.
 
 Theorem C15_nums_simple : forall (o : Simple.eopts) (D : Simple.dopts) (key : bool) (i : item) (z : Z),
   int_val i = Some z -> wf i -> Simple.zeroAsNil o = false -> fits (Simple.signedInteger D) i ->
@@ -111,6 +99,38 @@ Theorem C15_nums_binc : forall (e : Binc.eopts) (d : Binc.dopts) (i : item) (z :
   int_val (Binc.norm e d i) = Some z.
 Proof. exact nums_binc. Qed.
 Print Assumptions C15_nums_binc.
+
+(* The whole statement, every format, no guard left: an integer leaf either comes back as the same integer
+   (and then [fits]), or SignedInteger is on, the leaf is an unsigned value >= 2^63 and the schema-less decode
+   of its encoding (decoder model run on the encoder model's bytes) is the overflow error.  Never another
+   number: F07-1n (msgpack, binc: sign-flipped int64) is repaired (3c4765d). *)
+Theorem C15_nums_total_cbor : forall (O : Cbor.eopts) (D : Cbor.dopts) (i : item) (z : Z),
+  int_val i = Some z -> wf i ->
+  (fits (Cbor.do_signed D) i /\ int_val (CborEnc.norm O D i) = Some z)
+  \/ (Cbor.do_signed D = true /\ naked_run (FCbor O D) i = Err EOverflow).
+Proof. exact nums_total_cbor. Qed.
+Print Assumptions C15_nums_total_cbor.
+
+Theorem C15_nums_total_msgpack : forall (O : Msgpack.eopts) (D : Msgpack.dopts) (i : item) (z : Z),
+  int_val i = Some z -> wf i ->
+  (fits (Msgpack.d_signedinteger D) i /\ int_val (MsgpackRT.norm O D i) = Some z)
+  \/ (Msgpack.d_signedinteger D = true /\ naked_run (FMsgpack O D) i = Err EOverflow).
+Proof. exact nums_total_msgpack. Qed.
+Print Assumptions C15_nums_total_msgpack.
+
+Theorem C15_nums_total_simple : forall (o : Simple.eopts) (D : Simple.dopts) (i : item) (z : Z),
+  int_val i = Some z -> wf i -> Simple.zeroAsNil o = false ->
+  (fits (Simple.signedInteger D) i /\ int_val (Simple.norm o D false i) = Some z)
+  \/ (Simple.signedInteger D = true /\ naked_run (FSimple o D) i = Err EOverflow).
+Proof. exact nums_total_simple. Qed.
+Print Assumptions C15_nums_total_simple.
+
+Theorem C15_nums_total_binc : forall (e : Binc.eopts) (d : Binc.dopts) (i : item) (z : Z),
+  int_val i = Some z -> wf i -> (1 <= Binc.maxdepth d)%N ->
+  (fits (Binc.signedInt d) i /\ int_val (Binc.norm e d i) = Some z)
+  \/ (Binc.signedInt d = true /\ naked_run (FBinc e d) i = Err EOverflow).
+Proof. exact nums_total_binc. Qed.
+Print Assumptions C15_nums_total_binc.
 
 (* strings / byte strings keep their bytes (StringToRaw / RawToString only choose string vs []byte);
    floats are float64 in the tree (cbor: a float64 keeps its bits; binc: one zero, one NaN) *)
@@ -167,3 +187,12 @@ Example C15_tree_nonvacuous :
   naked_tree (fcbor false false false false false false) (mknopts true false) (IMap [(IInt 1, INil)]) = Err EBadDesc /\
   naked_run (fcbor false false false false true false) i = Ok (naked_norm (fcbor false false false false true false) i).
 Proof. cbv zeta. repeat apply conj; vm_compute; reflexivity. Qed.
+
+(* the overflow class is inhabited and is an error in all four models (uint64 2^64-1 and 2^63 under SignedInteger) *)
+Example C15_nums_total_nonvacuous :
+  naked_run (fcbor false false false false true false) (IUint 18446744073709551615%N) = Err EOverflow /\
+  naked_run (fmsgpack true false false false false true) (IUint 18446744073709551615%N) = Err EOverflow /\
+  naked_run (fsimple false true false) (IUint 9223372036854775808%N) = Err EOverflow /\
+  naked_run (fbinc false false true false) (IUint 9223372036854775808%N) = Err EOverflow /\
+  naked_run (fmsgpack true false false false false true) (IUint 9223372036854775807%N) = Ok (IInt 9223372036854775807).
+Proof. repeat apply conj; vm_compute; reflexivity. Qed.
